@@ -16,7 +16,7 @@ import os
 from common import (Check, coq_bad_indices, coq_eval, run_impl, standard_proof_step, TRUSTED_COMMON, ROOT)
 from coqterm import cZ, cstr, cbool, copt, clist
 
-IMPORTS = "From XV Require Import Base.Str Spec.PyEval Model.Pycode Model.PycodeCorr."
+IMPORTS = "From XV Require Import Base.Str Spec.PyEval Model.Pycode Model.PycodeCorr Model.PycodeText."
 GENERICS = "xsdata.formats.dataclass.models.generics"
 ANY = [GENERICS, ["AnyElement"]]
 DERIVED = [GENERICS, ["DerivedElement"]]
@@ -752,6 +752,28 @@ class X:
     return {"pkg": "c18wit", "modules": {m1: src, m2: src2}, "cases": [c for _, c in cases]}, [n for n, _ in cases]
 
 
+def float_table(spec):
+    """(bits, repr text) of every finite float in a value: CPython's float repr is not modelled."""
+    import math
+    import struct
+    out = {}
+
+    def walk(v):
+        if isinstance(v, dict):
+            if v.get("t") == "float":
+                x = struct.unpack("<d", struct.pack("<Q", int(v["v"])))[0]
+                if math.isfinite(x):
+                    out[v["v"]] = repr(x)
+            for x in v.values():
+                walk(x)
+        elif isinstance(v, list):
+            for x in v:
+                walk(x)
+
+    walk(spec)
+    return sorted(out.items())
+
+
 def size_of(v):
     return len(json.dumps(v))
 
@@ -767,7 +789,7 @@ CLASSES = [("class_array", "array-rendered-as-list"),
 
 def run(ck: Check):
     ck.level = "proof"
-    obligations, discharged, axioms = standard_proof_step(ck, extra_targets=["Model/PycodeCorr.vo"])
+    obligations, discharged, axioms = standard_proof_step(ck, extra_targets=["Model/PycodeCorr.vo", "Model/PycodeText.vo"])
     r = ck.rng
 
     batches, labels = [], []
@@ -840,7 +862,7 @@ def run(ck: Check):
 
     # all predicates are evaluated in one pass per group of cases: the group's worlds and cases are
     # parsed once (as definitions), the case list handed to coq_bad_indices is (predicate, case) pairs
-    PREDS = ["agree_repr", "agree_eval", "agree_veq", "oracle_guarded"] + [p for p, _ in CLASSES] + ["in_domain", "in_guard"]
+    PREDS = ["agree_repr", "agree_eval", "agree_veq", "oracle_guarded"] + [p for p, _ in CLASSES] + ["in_domain", "in_guard", "agree_text"]
     GROUP = 48
     groups = [list(range(i, min(i + GROUP, len(items)))) for i in range(0, len(items), GROUP)]
 
@@ -849,9 +871,15 @@ def run(ck: Check):
         worlds = sorted({items[i]["w"] for i in idxs})
         gdefs = "\n".join(defs[w] for w in worlds)
         gdefs += "\nDefinition group_cases : list ccase := [\n" + ";\n".join(terms[i] for i in idxs) + "]."
-        gdefs += "\nDefinition preds : list (ccase -> bool) := [" + "; ".join(PREDS) + "]."
-        check = ("fun p : nat * nat => match nth_error preds (fst p), nth_error group_cases (snd p) with "
-                 "| Some f, Some c => f c | _, _ => false end")
+        gdefs += "\nDefinition preds : list (ccase -> bool) := [" + "; ".join(PREDS[:-1]) + "]."
+        gdefs += "\nDefinition group_texts : list (list (Z * str) * str) := [\n" + ";\n".join(
+            "(" + clist(float_table(items[i]["res"]["spec"]), lambda p: f"({cnum(p[0])}, {cstr(p[1])})", "(Z * str)")
+            + ", " + ccps(items[i]["res"]["text"]) + ")" for i in idxs) + "]."
+        check = ("fun p : nat * nat => match nth_error group_cases (snd p) with None => false | Some c => "
+                 f"if Nat.eqb (fst p) {len(PREDS) - 1} then "
+                 "match nth_error group_texts (snd p) with Some t => agree_text (fst (fst c), snd (fst c), fst t, snd t) "
+                 "| None => false end "
+                 "else match nth_error preds (fst p) with Some f => f c | None => false end end")
         pairs = [f"({k}%nat, {j}%nat)" for k in range(len(PREDS)) for j in range(len(idxs))]
         bad = coq_bad_indices(f"c18_g{gi}", IMPORTS, gdefs, "nat * nat", check, pairs, shard=len(pairs) + 1)
         return [(PREDS[b // len(idxs)], idxs[b % len(idxs)]) for b in bad]
@@ -897,6 +925,13 @@ def run(ck: Check):
             ck.failure("unexplained-failure", f"evaluating back failed and no modelled defect explains it: {show(it)}",
                        it["replay"])
 
+    # the character-level printer (Model/PycodeText.v) against the implementation's text: information only —
+    # layout or quoting drift does not affect the property (the AST-level agree_repr decides)
+    text_bad = run_pred("agree_text")
+    ck.cov["text_layout_mismatches"] = len(text_bad)
+    if text_bad:
+        ck.notes.append("character-level printer differs from the implementation on %d cases, first: %r"
+                        % (len(text_bad), text_of(text_bad[0])[:200]))
     n_dom = len(items) - len(run_pred("in_domain", "dom"))
     n_guard = len(items) - len(run_pred("in_guard", "guard"))
 
